@@ -286,6 +286,21 @@ def tool_space(ctx):
             shutil.rmtree(d, ignore_errors=True)
 
     common.parallel(one, jobs)
+    # passwords typed at the terminal (no -p / -k): lengths around the 1024-byte password buffers, on a pseudo-terminal
+    d = os.path.join(root, "tty")
+    os.makedirs(d)
+    with open(os.path.join(d, "f.bin"), "wb") as f:
+        f.write(b"q" * 50)
+    for plen in (0, 1, 1022, 1023, 1024, 1025, 2000, 4000):
+        for second in (plen, 3):
+            rc, out = common.run_on_pty([crypt, "-e", "-o", "f%d.enc" % plen, "f.bin"], [b"P" * plen, b"P" * second], cwd=d, env=env)
+            ctx.stat("evaluations")
+            text = out.decode("utf-8", "replace")
+            bad = "asan" if "AddressSanitizer" in text else "ubsan" if "runtime error" in text else ("signal%d" % -rc) if rc < 0 else None
+            if bad:
+                where = [l.split(" in ", 1)[1].split(" ")[0] for l in text.splitlines() if l.strip().startswith("#") and " in " in l]
+                where = [w for w in where if not w.startswith("__") and w not in ("memcpy", "strlen", "main")]
+                ctx.fail("tool:asconcrypt:%s:%s" % (bad, where[0] if where else "prompt"), "password of %d characters typed at the prompt (confirmation %d): %s" % (plen, second, text[-300:].replace("\n", " | ")))
     # command-line syntax: options without their operand, bundled options, empty words, unknown options -- with getopt() and with the tools' own parser (a libc without getopt)
     crypt_lines = [["-g"], ["-e", "-g"], ["-d", "-g"], ["-p"], ["-k"], ["-o"], ["-e", "-p"], ["-e", "-o"], ["-ep"], ["-eg"], ["-dk"], ["-z"], ["--"], ["-"], [""], ["-e", ""], ["-p", "x", "-o"],
                    ["-e", "-p", "x", "-k"], ["-e", "-p", "x", "f.bin", "-o"], ["-gk"], ["-g", ""], ["-e", "-pfoo", "f.bin"], ["-epfoo", "f.bin"], ["-e", "-p", "foo", "-of.enc", "f.bin"], ["-d", "-p", "foo", "f.enc", "-o", "x"],
